@@ -1,13 +1,15 @@
 (* Entry points of the extracted driver: run the model / the spec checker of a property. *)
 From WI Require Import Lib.Base.
-From WI Require Run.C14 Run.C20.
+From WI Require Run.C07 Run.C14 Run.C20.
 
 Definition run (prop op : bytes) (input : arg) : arg :=
   if bytes_eqb prop (bs "C14") then Run.C14.run_C14 op input
   else if bytes_eqb prop (bs "C20") then Run.C20.run_C20 op input
+  else if bytes_eqb prop (bs "C07") then Run.C07.run_C07 op input
   else AL [].
 
 Definition check (prop op : bytes) (input impl : arg) : arg :=
   if bytes_eqb prop (bs "C14") then Run.C14.check_C14 op input impl
   else if bytes_eqb prop (bs "C20") then Run.C20.check_C20 op input impl
+  else if bytes_eqb prop (bs "C07") then Run.C07.check_C07 op input impl
   else AL [].
